@@ -22,7 +22,7 @@ HINT_SCHEMA = 0x03FF        # default statements
 HINT_JSON_STRING = 0x0011   # LYD_VALHINT_STRING | LYD_VALHINT_NUM64
 HINT_JSON_NUMBER = 0x0002   # LYD_VALHINT_DECNUM
 HINT_JSON_BOOL = 0x0020
-ALL_HINTS = [HINT_DATA, HINT_SCHEMA, HINT_JSON_STRING, HINT_JSON_NUMBER, HINT_JSON_BOOL, 0, 1, 4, 8, 16, 64, 6, 12, 18, 24]
+ALL_HINTS = [HINT_DATA, HINT_SCHEMA, HINT_JSON_STRING, HINT_JSON_NUMBER, HINT_JSON_BOOL, 0, 1, 4, 8, 16, 64, 6, 12, 18, 24, 20]     # 4 / 20: base 8 only, 8 / 24: base 16 only
 
 INTS = {"i8": (-2**7, 2**7 - 1), "i16": (-2**15, 2**15 - 1), "i32": (-2**31, 2**31 - 1), "i64": (-2**63, 2**63 - 1),
         "u8": (0, 2**8 - 1), "u16": (0, 2**16 - 1), "u32": (0, 2**32 - 1), "u64": (0, 2**64 - 1)}
@@ -106,7 +106,8 @@ def int_lexicals(rng, lo, hi, parts, n_random):
         mag = str(abs(v)).encode()
         sign = b"-" if v < 0 else b""
         out |= {s, b"+" + s, sign + b"0" + mag, sign + b"000" + mag, b" " + s, s + b" ", b"\t" + s + b"\n", s + b"x", s + b" x", s + b".0", s + b"e0",
-                sign + b" " + mag, b"0x%x" % abs(v), sign + b"0X%X" % abs(v), sign + b"0%o" % abs(v), sign + b"0" * 20 + mag}
+                sign + b" " + mag, b"0x%x" % abs(v), sign + b"0X%X" % abs(v), sign + b"0%o" % abs(v), sign + b"0" * 20 + mag,
+                sign + b"%x" % abs(v), sign + b"%o" % abs(v)}        # digits of base 16 / 8 without a prefix (hint sets that select one base)
         if v >= 0:
             out |= {b"-" + s, b"+0" + mag}
         if rng.random() < 0.3:
@@ -117,7 +118,8 @@ def int_lexicals(rng, lo, hi, parts, n_random):
         out |= {ds, b"-" + ds, b"+" + ds}
     out |= {b"", b" ", b"+", b"-", b"--1", b"+-1", b"-+1", b"++1", b"0x", b"0X", b"0xg", b"-0x", b"0x 1", b"08", b"09", b"-08", b"0b1", b"0B1", b"1_0", b"1,0", b"0x-1",
             b"\xc2\xa01", b"1\xc2\xa0", b"\xef\xbc\x91", b"1\x0b", b"\x0c1", b"1 2", b"- 1", b"+ 1", b"0-", b"a", b"x", b".", b"1.", b".1", b"1e1", b"0x1p1", b"NaN", b"inf",
-            b"-0", b"+0", b"00", b"-00", b"0 ", b" 0", b"\n0\n"}
+            b"-0", b"+0", b"00", b"-00", b"0 ", b" 0", b"\n0\n",
+            b"ff", b"FF", b"fF", b"-ff", b"7f", b"80", b"-80", b"g", b"fg", b"0xfg", b"x1", b"0x0x1", b"00x1", b"0x+1", b"-0x0", b"8", b"-8", b"78", b"0778", b"-0X"}
     return sorted(out)
 
 
@@ -203,7 +205,7 @@ STR_POOL = [b"", b"a", b"ab", b"abc", b"abcd", b"abcde", b"abcdef", b" ", b"  ",
 # ------------------------------------------------------------------------------------------ the check proper
 def kind(line, reply):
     t = line.split()
-    ty = t[3].split(":")[0]
+    ty = "union" if t[3].startswith("U(") else t[3].split(":")[0]
     ty = re.sub(r"^d\d+$", "dec64", ty)
     return "val:%s:%s:%s" % (t[2], ty, reply[0] if reply[0] == "ok" else reply[1])
 
@@ -423,6 +425,13 @@ def run_val(cx, derived=True):
     if derived:
         derived_types(run)
     f51_witness(run)
+    from checks import valdt, valunion
+    valunion.run_all(run)
+    valdt.run_dt(run)
+    from checks import valhex
+    valhex.run_hex(run)
+    from checks import valbin; valbin.run_bin(run)
+    from checks import valinst; valinst.run_inst(run)
     return run
 
 
